@@ -7,7 +7,7 @@ THEOREMS = ["SCP.C05." + t for t in """plus_percent minus_percent money_plus_per
 off_number of_money on_money off_money what_percent what_percent_zero what_percent_money total_from_percent
 total_from_percent_money phrase_of_1 phrase_of_2 phrase_on_1 phrase_on_2 phrase_off_1 phrase_off_2 phrase_what_percent
 phrase_total_from_percent""".split()]
-RULE = ("the seven phrases x both operand orders x both percent spellings x X/A/B/p from value classes {0, small, large, "
+RULE = ("the seven phrases x both operand orders x both percent spellings (behind + / - a negative percentage also with the sign outside the spelling: '-%p', '- p%') x X/A/B/p from value classes {0, small, large, "
         "fractions with 1-6 digits, negative; integer parts of four and more digits with and without the thousands separator} x plain / money in every currency that has a rate; non-trivial = the phrase "
         "evaluated to a value (not an error) and at least one operand is non-zero; distinct = distinct line texts")
 ASSUMPTIONS = ["formula theorems are over exact rationals; the implementation's doubles are compared with the exact value "
@@ -42,8 +42,12 @@ def lit(rng, s):
     return sign + ip + ("," + fp if fp else "")
 
 
-def pct_text(rng, p):
-    return (lit(rng, p) + "%") if rng.random() < 0.6 else ("%" + lit(rng, p))
+def pct_text(rng, p, after_operator=False):
+    t = lit(rng, p)
+    if t.startswith("-") and after_operator and rng.random() < 0.4:
+        # behind an operator the sign may stand outside the percent spelling: '200 + -%10', '200 + - 10%'
+        return "-%" + t[1:] if rng.random() < 0.6 else "- " + t[1:] + "%"
+    return (t + "%") if rng.random() < 0.6 else ("%" + t)
 
 
 def gen_case(rng):
@@ -60,11 +64,11 @@ def gen_case(rng):
         return lit(rng, s) + rng.choice([" ", ""]) + (cur if rng.random() < 0.7 else cur.upper())
     order = rng.random() < 0.5
     if phrase == "plus":
-        text = f"{amt(x)} + {pct_text(rng, p)}"
+        text = f"{amt(x)} + {pct_text(rng, p, True)}"
         spec = fx * (1 + fp / 100)
         kind = "M" if cur else "N"
     elif phrase == "minus":
-        text = f"{amt(x)} - {pct_text(rng, p)}"
+        text = f"{amt(x)} - {pct_text(rng, p, True)}"
         spec = fx * (1 - fp / 100)
         kind = "M" if cur else "N"
     elif phrase in ("of", "on", "off"):
